@@ -2024,7 +2024,13 @@ def main():
             out.append('')
             return None
 
+    consts_done = set()
+
     def emit_fn(gname, rel, fn, self_ty=None, impl_re=None, key=None):
+        if rel not in consts_done:
+            consts_done.add(rel)
+            emit_consts(rel)          # private constants of the file (same values under any name)
+
         def thunk():
             src = strip_comments(read(rel))
             scope = find_impl(src, impl_re) if impl_re else src
